@@ -492,6 +492,8 @@ _RULE_ADDENDA_8 = {
     "C11": " billListData (nested positions) is in the quick subset. Run otherfunctions: non-persisting and failing updates of non-list functions and of list functions without identifiers.",
     "C12": " In a quarter of the cases per writing peer, the peer re-announces its writing entity (lastStateChange added, same features) between the arrival of its writes and the verdicts; the pending writes are judged as before.",
     "C14": " Run sameCallback: 2-4 goroutines register the same callback for the same 64 counters from a spinning rendezvous; exactly one registration per counter is accepted, the answer invokes it once.",
+    "C10": " One peer now and then never tells its device address in its discovery data (known by SKI only, otherwise a full peer); local client features also subscribe / bind late, to a feature of an entity the peer has announced as removed meanwhile.",
+    "C16": " Announced-period test: the subscriber's connection may take 40-50 % of a period per notification without ever stalling.",
     "C17": " Storm heartbeat-setup-vs-stop: AddFunctionType(heartbeat) against StopHeartbeat / RemoveEntity of the same entity from a rendezvous. The lock watchdog also reports a goroutine inside spine-go waiting for one mutex for three minutes on end.",
     "C19": " A value an earlier conversion returned may serve as the receiver of a decoded scaled number before the next conversion.",
 }
